@@ -20,6 +20,8 @@ int g_ar_getid_res, g_ar_setid_res, g_ar_transport_adds, g_ar_has_oldid;
 static void ar_init(void) {
 	g_ar_reqid_set = 0; g_ar_transport_adds = 0;
 	g_ar_getid_res = nondet_int(); g_ar_setid_res = nondet_int(); g_ar_has_oldid = nondet_bool();
+	/* the call-backs never report the client's own 'cache full' code */
+	__CPROVER_assume(g_ar_getid_res != KSI_ASYNC_REQUEST_CACHE_FULL && g_ar_setid_res != KSI_ASYNC_REQUEST_CACHE_FULL);
 	memset(&g_ar_confh, 0, sizeof(g_ar_confh));
 	g_ar_confh.ref = 1; g_ar_confh.state = KSI_ASYNC_STATE_WAITING_FOR_DISPATCH;
 }
@@ -42,6 +44,8 @@ int ar_handle_new(KSI_CTX *ctx, void *req, KSI_AsyncHandle **h) { if (nondet_boo
 int ar_impl_add(void *impl, KSI_AsyncHandle *h) { g_ar_transport_adds++; return nondet_bool() ? KSI_OK : KSI_ASYNC_NOT_FINISHED; }
 int ar_impl_cred(void *impl, const char **user, const char **pass) { if (nondet_bool()) return KSI_INVALID_STATE; if (user) *user = "u"; if (pass) *pass = "p"; return KSI_OK; }
 
+/* ctx->asyncHandleRecycle is NULL in the harness; gives the guarded function-pointer call on it a concrete target */
+int ar_recycle_append(KSI_LIST(KSI_AsyncHandle) *l, KSI_AsyncHandle *h) { __CPROVER_assert(0, "recycle list is absent"); return KSI_INVALID_STATE; }
 int KSI_Header_new(KSI_CTX *ctx, KSI_Header **t) { if (nondet_bool()) return KSI_OUT_OF_MEMORY; *t = (KSI_Header *)&g_ar_hdr; return KSI_OK; }
 void KSI_Header_free(KSI_Header *t) { }
 int KSI_Header_setLoginId(KSI_Header *t, KSI_Utf8String *v) { KSI_Utf8String_free(v); return KSI_OK; }
